@@ -57,10 +57,10 @@ func (ml MultiLineString) Transform(t proj.Transformer) (Geom, error) {
 	ml2 := make(MultiLineString, len(ml))
 	for i, l := range ml {
 		g, err := l.Transform(t)
-		ml2[i] = g.(LineString)
 		if err != nil {
 			return nil, err
 		}
+		ml2[i] = g.(LineString)
 	}
 	return ml2, nil
 }
@@ -94,10 +94,10 @@ func (mp MultiPolygon) Transform(t proj.Transformer) (Geom, error) {
 	mp2 := make(MultiPolygon, len(mp))
 	for i, p := range mp {
 		g, err := p.Transform(t)
-		mp2[i] = g.(Polygon)
 		if err != nil {
 			return nil, err
 		}
+		mp2[i] = g.(Polygon)
 	}
 	return mp2, nil
 }
